@@ -324,3 +324,33 @@ def gen_giant_bt(rng):
         cuts = sorted(set(int(x) for x in rng.integers(1, L, size=nb - 1)))
         bt.append([NAMES[ci], [0] + cuts + [L]])
     return bt
+
+
+def blacklist_bed(rng, bt, ids):
+    """BED lines (chrom, start, end) whose overlap with the bin table is exactly the bins `ids`: runs of adjacent
+    bins are sometimes merged into one interval, interval ends are bin-aligned or moved strictly inside the first /
+    last bin, fully covered chromosomes are sometimes written as (chrom, 0, length). Always >= 2 lines (a one-line
+    file is taken for a header by csv.Sniffer, DESIGN O6)."""
+    bl = bt_bins_list(bt)
+    ids = sorted(set(int(i) for i in ids))
+    runs = []
+    for b in ids:
+        if runs and runs[-1][-1] == b - 1 and bl[b][0] == bl[b - 1][0] and rng.random() < 0.6:
+            runs[-1].append(b)
+        else:
+            runs.append([b])
+    lines = []
+    for r in runs:
+        ch, s, _ = bl[r[0]]
+        e = bl[r[-1]][2]
+        w0 = bl[r[0]][2] - bl[r[0]][1]
+        w1 = bl[r[-1]][2] - bl[r[-1]][1]
+        d1 = int(rng.integers(0, w0)) if rng.random() < 0.4 else 0
+        d2 = int(rng.integers(0, w1)) if rng.random() < 0.4 else 0
+        if len(r) == 1 and d1 + d2 >= w0:
+            d1 = d2 = 0
+        lines.append((ch, s + d1, e - d2))
+    while 0 < len(lines) < 2:
+        lines.append(lines[0])
+    order = rng.permutation(len(lines))
+    return [lines[int(i)] for i in order]
